@@ -44,7 +44,7 @@ RULE = ("stacks = [KDSubset | RepeatWrapper]? + seeded sample wrapper(s) + [KDSu
         "[n, t], dict(n_views, transform), dict(transform), KDMultiViewConfig, (n, dict(kind)), bare list, plain callable), "
         "KDMixWrapper(seed) (mixup) below / above seeded transform wrappers, SemsegTransformWrapper(seed) over semseg and "
         "image-only members, Byol / ImagenetMinaug (multi-view and x) / ImagenetNoaug / MUGS wrappers of kappadata.common; "
-        "boundary seeds 0, 1, 2^31-1, 2^32-1, 2^32, 2^62 and random ones; dataset sizes 2..10. Plus stream probes: identical "
+        "seeds: 0 (falsy) for >= 25% of the seeded layers of every wrapper kind, 1, 5, 2^31-1, 2^32-1, 2^32, 2^62 and random ones; dataset sizes 2..10. Plus stream probes: identical "
         "underlying samples + a noise transform in 12 container shapes inside each wrapper kind. distinct by full spec; trivial = "
         "no layer of the stack draws")
 ASSUMPTIONS = [
@@ -73,6 +73,7 @@ MONITORS = ["reference_tables", "history_observations_compared", "second_instanc
 STEP_LIMIT = 3_000_000
 WITNESSES_PER_KEY = 4
 LOADER_TIMEOUT_S = 120
+ZERO_SEED_QUOTA = 3
 
 
 # ------------------------------------------------------------------------------------------------ generation
@@ -110,6 +111,19 @@ def gen_cases(run):
     plan = ["probe"] * n_probe + ["stack"] * n_stack + ["common"] * n_common
     rng.shuffle(plan)
     loader_share = 0.3
+    zero = {}
+
+    def zero_quota(st):
+        """besides the 25% share of gen_seed: the first ZERO_SEED_QUOTA drawing layers of every (case kind, wrapper kind) get
+        seed 0 deterministically, so that every family meets the falsy boundary seed in every run"""
+        kind = "probe" if st.get("probe") else "stack"
+        for l in st["layers"]:
+            if l["w"] in S.SEEDED and l.get("seed") is not None and S.stochastic_layer(l):
+                k = (kind, l["w"], l.get("item", ""))
+                if zero.get(k, 0) < ZERO_SEED_QUOTA:
+                    zero[k] = zero.get(k, 0) + 1
+                    l["seed"] = 0
+
     for kind in plan:
         if kind == "probe":
             st = S.gen_probe(rng)
@@ -117,6 +131,7 @@ def gen_cases(run):
             st = S.gen_stack(rng, flags, family="common")
         else:
             st = S.gen_stack(rng, flags, family=rng.choice(["xtw", "xtw", "xtw", "xtw2", "mv", "mv", "mix", "semseg", "semseg"]))
+        zero_quota(st)
         loaders = rng.choice([1, 2, 2]) if rng.random() < loader_share else 0
         yield _finish_spec(rng, st, loaders)
 
@@ -621,7 +636,9 @@ def _cover(run, spec):
     run.cover("data", spec["data"]["T"]["kind"], bool(spec["data"].get("const")))
     for l in layers:
         if l.get("seed") is not None:
-            run.cover("seed", "boundary" if l["seed"] in S.BOUNDARY_SEEDS else "random", l["w"])
+            run.cover("seed", "zero" if l["seed"] == 0 else "boundary" if l["seed"] in S.BOUNDARY_SEEDS else "random", l["w"])
+            if l["seed"] == 0 and l["w"] in S.SEEDED and S.stochastic_layer(l):
+                run.count(f"zero_seed_layers[{S.wrapper_family(l)}]")
         if l["w"] == "xtw":
             run.cover("xtw", l["item"], l["tree"]["t"], H.node_depth(l["tree"]), bool(l["tree"].get("implicit")), l["tree"].get("via", "obj"))
         elif l["w"] == "mv":
